@@ -59,10 +59,14 @@ def run(prop, tier):
     cases = [parsepipe.case("abs", s["text"], s["listing"], o) for s, o in zip(states, obs)]
     # the same under a rule that names sections: for a listing the `sections' option selects nothing (it is an
     # option of the disassembler run, C15), so section header lines stay presentation
-    obs_s = parsepipe.parse_texts(texts, "c16s", rule=SECTIONS_RULE)
-    cases += [parsepipe.case("abs", s["text"], s["listing"], o) for s, o in zip(states, obs_s)]
+    # (all states in the quick tier; in the thorough tier the states that hold a section header line, where the option
+    #  could matter, and every tenth of the others -- the validation of 200 000 listings takes TLC more than an hour)
+    sel_s = [i for i, s in enumerate(states)
+             if tier == "quick" or i % 10 == 0 or any(l["kind"] == "section" for l in s["listing"])]
+    obs_s = parsepipe.parse_texts([texts[i] for i in sel_s], "c16s", rule=SECTIONS_RULE)
+    cases += [parsepipe.case("abs", states[i]["text"], states[i]["listing"], o) for i, o in zip(sel_s, obs_s)]
     verdicts = parsepipe.validate(cases, report, "c16a")
-    for c, v, s in zip(cases, verdicts, states + states):
+    for c, v, s in zip(cases, verdicts, states + [states[i] for i in sel_s]):
         if v.startswith("rej"):
             if v[4:].startswith("MACHINERY"):
                 raise MachineryError(f"C16: {v}")
